@@ -16,9 +16,20 @@ struct EvalPeek : public Evaluator {
     bool clearVars() const { return clear_vars; }
     size_t frows() const { return f.cols(); }
     size_t fsize(size_t k) const { return f(k).size(); }
-    float seed(int ax) const {
+    // every lane of every leaf derivative row holds its constructor value (X/Y/Z unit rows, zero
+    // rows for variables and constants): the feature walk rewrites them with the same values
+    bool seedsOK() const {
         auto dk = BaseEvaluator::deck;
-        return ax == 0 ? d(dk->X)(0, 0) : ax == 1 ? d(dk->Y)(1, 0) : d(dk->Z)(2, 0);
+        auto rowOK = [&](size_t k, int one) {
+            for (int r = 0; r < 3; ++r)
+                for (size_t c = 0; c < N; ++c)
+                    if (d(k)(r, c) != (r == one ? 1.0f : 0.0f)) return false;
+            return true;
+        };
+        bool ok = rowOK(dk->X, 0) && rowOK(dk->Y, 1) && rowOK(dk->Z, 2);
+        for (auto& v : dk->vars.left) ok = ok && rowOK(v.first, -1);
+        for (auto& c : dk->constants) ok = ok && rowOK(c.first, -1);
+        return ok;
     }
 };
 
@@ -155,8 +166,7 @@ int main(int argc, char** argv) {
         } else {
             std::string a = answer(L, w);
             std::cout << "q " << w[0] << " depth " << L.stack.size() << " csimd " << L.ev->csimd()
-                      << " clear " << (L.ev->clearVars() ? 1 : 0) << " seeds " << hex(L.ev->seed(0)) << " "
-                      << hex(L.ev->seed(1)) << " " << hex(L.ev->seed(2)) << " L " << a;
+                      << " clear " << (L.ev->clearVars() ? 1 : 0) << " seedsok " << (L.ev->seedsOK() ? 1 : 0) << " L " << a;
             Ctx F;
             fresh(F);
             std::string b = answer(F, w);
